@@ -4,6 +4,7 @@
 #   demo passes on the clean tree, patch applies, test-suite keeps its 1017 passes, demo fails with the change;
 # then runs the quick checks against the changed tree.  Removes the scratch worktree afterwards.
 set -u
+here="$(cd "$(dirname "$0")/.." && pwd)"
 dir="$(realpath "$1")"; shift
 scratch="$(mktemp -d /tmp/gvseed.XXXXXX)"; out="$(mktemp -d /tmp/gvseedout.XXXXXX)"
 git -C /repo worktree add -q --detach "$scratch/repo" HEAD
@@ -12,7 +13,7 @@ if ! git -C "$scratch/repo" apply "$dir/patch.diff"; then echo "PATCH-FAILED"; g
 (cd "$scratch/repo" && timeout 900 /venv/bin/python -m pytest -q -p no:cacheprovider --timeout=900 --continue-on-collection-errors 2>&1 | tail -1)
 REPO_UNDER_TEST="$scratch/repo" timeout 600 /venv/bin/python "$dir/demo.py" > "$out/demo_patched.log" 2>&1; echo "DEMO patched exit=$? $(tail -2 "$out/demo_patched.log" | tr '\n' ' ' | cut -c1-300)"
 for prop in "$@"; do
-  VERIF_REPO="$scratch/repo" VERIF_OUT="$out" timeout 1200 /venv/bin/python /verif/check.py "$prop" --tier quick ${RUNS:+--runs $RUNS} > "$out/$prop.log" 2>&1
+  VERIF_REPO="$scratch/repo" VERIF_OUT="$out" timeout 1200 /venv/bin/python "$here/check.py" "$prop" --tier quick ${RUNS:+--runs $RUNS} > "$out/$prop.log" 2>&1
   code=$?
   echo "CHECK $prop exit=$code $(grep -c '^VIOLATION' "$out/$prop.log") violation line(s); $(grep -m1 'sig=' "$out/$prop.log" | cut -c1-260)"
   if [ $code -eq 2 ]; then grep -m3 HARNESS "$out/$prop.log" | cut -c1-600; fi
